@@ -72,12 +72,26 @@ def _solve1(smt2, timeout_ms, want_model, second_opinion=True):
 def discharge_all(run, obs, timeout_ms=20000, procs=None, on_sat=None):
     """obs: list of Ob. Folds into run; returns list of (Ob, status, detail)."""
     procs = procs or min(16, os.cpu_count() or 4)
-    jobs = [(o.smt2, timeout_ms, True, o.hints, o.expect_sat) for o in obs]
+    # obligations whose claim is already `true` after simplification (structural comparisons of recorded statements mostly) need no
+    # solver process; everything else goes to the pool
+    res = [None] * len(obs)
+    todo = []
+    for k, o in enumerate(obs):
+        if not o.expect_sat and o.claim is not None:
+            try:
+                if z3.is_true(z3.simplify(o.claim)):
+                    res[k] = ("unsat", None, 0.0, "z3 simplify (claim is syntactically true)"); continue
+            except z3.Z3Exception:
+                pass
+        todo.append(k)
+    jobs = [(obs[k].smt2, timeout_ms, True, obs[k].hints, obs[k].expect_sat) for k in todo]
     if len(jobs) <= 2 or os.environ.get("VERIF_SERIAL"):
-        res = [_solve(j) for j in jobs]
+        out_ = [_solve(j) for j in jobs]
     else:
         with mp.get_context("fork").Pool(min(procs, len(jobs))) as pool:
-            res = pool.map(_solve, jobs, chunksize=1)
+            out_ = pool.map(_solve, jobs, chunksize=8 if len(jobs) > 2000 else 1)
+    for k, r in zip(todo, out_):
+        res[k] = r
     out = []
     for o, (status, detail, dt, backend) in zip(obs, res):
         name = f"{o.fn}::{o.clause}::{o.label}"
@@ -215,8 +229,14 @@ class FnVerifier:
 
     def add(self, clause, label, pc, claim, lineno=None, expect_sat=False, replay=None, axioms=None):
         axioms = self.axioms if axioms is None else axioms
-        hints = [to_smt2(axioms, list(pc) + [h], claim) for h in self.scope_hints]
-        self.obs.append(Ob(self.qualname, clause, label, to_smt2(axioms, pc, claim), lineno, expect_sat,
+        trivial = False
+        if not expect_sat:
+            try:
+                trivial = z3.is_true(z3.simplify(claim))
+            except z3.Z3Exception:
+                trivial = False
+        hints = [] if trivial else [to_smt2(axioms, list(pc) + [h], claim) for h in self.scope_hints]
+        self.obs.append(Ob(self.qualname, clause, label, "" if trivial else to_smt2(axioms, pc, claim), lineno, expect_sat,
                            pc=list(pc), claim=claim, axioms=axioms, replay=replay or self.default_replay, hints=hints))
         self.obs[-1].hint_terms = list(self.scope_hints)
 
